@@ -58,6 +58,29 @@ theorem facts_spend_clause :
     accountStorePendingBatchCalls = ["s.DB.PendingBatchSnapshot"] ∧
     fundingDeletePendingBatchCalls = ["m.cfg.DB.DeletePendingBatch"] := by decide
 
+/-- **The order record moves as a whole.**  `updateOrder` and `copyOrder` decode the fixed-size order AND its TLV
+stream (so the in-memory order carries every optional term) and then rewrite ALL keys of the order sub-bucket
+into the destination: the order itself, its minimum match size, its TLV stream and (bids) its node tier; the
+event goes to the MAIN order bucket.  This is what lets the model move `Ord` records (incl. `minMatch`, `tier`,
+`extras`) as units, so that "completion applies exactly the staged version" is about full orders. -/
+theorem facts_order_keys :
+    updateOrderStores = [["storeEventTX", "orderBucket", "evt"], ["storeOrderTX", "dst", "nil"],
+      ["storeOrderMinUnitsMatchTX", "dst", "o.Details().MinUnitsMatch"], ["storeOrderTlvTX", "dst", "o"],
+      ["storeOrderMinNoderTierTX", "dst", "bidOrder.MinNodeTier"]] ∧
+    copyOrderStores = [["storeOrderTX", "dst", "nil"], ["storeOrderTlvTX", "dst", "o"],
+      ["storeOrderMinNoderTierTX", "dst", "nodeTier"], ["storeOrderMinUnitsMatchTX", "dst", "minUnitsMatch"]] ∧
+    updateOrderDecodes = ["DeserializeOrder(r)", "deserializeOrderTlvData(o)"] ∧
+    copyOrderDecodes = ["DeserializeOrder(r)", "deserializeOrderTlvData(o)"] ∧
+    getOrderDecodes = ["DeserializeOrder(r)", "deserializeOrderTlvData(o)"] := by decide
+
+/-- modifiers never touch the fixed terms of an order -/
+theorem applyOMods_fixed (ms : List OMod) (o : Ord) : (applyOMods ms o).fixed = o.fixed := by
+  induction ms generalizing o with
+  | nil => rfl
+  | cons m r ih =>
+    have : applyOMods (m :: r) o = applyOMods r (m.apply o) := rfl
+    rw [this, ih]; cases m <;> rfl
+
 /-! ## single operations -/
 
 /-- **Staging never changes what the trader sees** – whether the call succeeds or fails. -/
@@ -69,15 +92,42 @@ theorem stage_preserves_visible (db : DB) (a : StageArgs) : vis (step db (.stage
 /-- **A failing call is the identity** on the whole database (visible state, staged batch, event log): every
 operation, in particular a staging call that fails midway (unknown order/account at any position, length
 mismatch, unsupported fee schedule, serializer panic). -/
-theorem fail_is_identity (db : DB) (op : Op) (e : Err) (h : (step db op).2 = some e) : (step db op).1 = db := by
+theorem fail_is_identity (db : DB) (op : Op) (e : Err) (hop : ∀ k w tx ht, op ≠ .accountSpend k w tx ht)
+    (h : (step db op).2 = some e) : (step db op).1 = db := by
   have hc : ∀ r : Except Err DB, (commit db r).2 = some e → (commit db r).1 = db := by
     intro r hr; cases r with
     | error _ => rfl
     | ok d => simp [commit] at hr
-  cases op <;> simp only [step] at h ⊢ <;> first | exact hc _ h | simp at h
+  cases op <;> simp only [step] at h ⊢ <;> first | exact hc _ h | simp at h | exact absurd rfl (hop _ _ _ _)
+
+/-- `HandleAccountSpend` is NOT one transaction (pending-batch clause, then `UpdateAccount`): when it fails, the
+database is either untouched or exactly in the state after the completed pending-batch clause -/
+theorem accountSpend_fail (db : DB) (k : Key) (w : Witness) (tx ht : Nat) (e : Err)
+    (h : (step db (.accountSpend k w tx ht)).2 = some e) :
+    (step db (.accountSpend k w tx ht)).1 = db ∨ (step db (.accountSpend k w tx ht)).1 = (step db .spend).1 := by
+  have hc : ∀ (d : DB) (r : Except Err DB), (commit d r).2 = some e → (commit d r).1 = d := by
+    intro d r hr; cases r with
+    | error _ => rfl
+    | ok d' => simp [commit] at hr
+  simp only [step, handleAccountSpend] at h ⊢
+  cases hl : lookup k db.accounts with
+  | none => left; rfl
+  | some a =>
+    simp only [hl] at h ⊢
+    cases w with
+    | unknown => left; rfl
+    | expiry => left; exact hc _ _ h
+    | multiSig =>
+      simp only [] at h ⊢
+      cases hr : commit db (spendPendingClause db) with
+      | mk db1 res =>
+        rw [hr] at h
+        cases res with
+        | some e' => right; rfl
+        | none => right; simp only [] at h ⊢; exact hc _ _ h
 
 theorem stage_fail_is_identity (db : DB) (a : StageArgs) (e : Err) (h : (step db (.stage a)).2 = some e) :
-    (step db (.stage a)).1 = db := fail_is_identity db (.stage a) e h
+    (step db (.stage a)).1 = db := fail_is_identity db (.stage a) e (fun _ _ _ _ => by simp) h
 
 /-- what a successful staging call leaves in the database: visible state untouched, the staging area REPLACED by
 `stageOut` of the visible accounts/orders and the call's arguments, events appended -/
@@ -85,7 +135,8 @@ theorem stage_ok_state (db : DB) (a : StageArgs) (h : (step db (.stage a)).2 = n
     ∃ o, stageOut db.accounts db.orders a = .ok o ∧
       (step db (.stage a)).1 =
         { db with events := db.events ++ o.es, pendingId := some a.batchId, pendingAccts := some o.pa,
-                  pendingOrders := some o.po, pendingSnap := some o.snap } := by
+                  pendingOrders := some o.po, pendingSnap := some o.snap,
+                  noRefs := db.noRefs.filter (fun k => !a.orders.contains k) } := by
   simp only [step] at h ⊢
   rw [storePendingBatch_eq] at h ⊢
   cases ho : stageOut db.accounts db.orders a with
@@ -111,10 +162,11 @@ theorem restage_no_residue (db : DB) (a₁ a₂ : StageArgs) :
   | ok o => exact ⟨rfl, fun _ => rfl, fun h => by simp [commit] at h⟩
 
 /-- **Discarding restores** the database as it was before staging – nothing staged, visible state untouched;
-the only trace of the abandoned version is in the append-only event log. -/
+the only trace of the abandoned version is in the append-only event log (and in the existence of the event-ref
+sub-buckets that log lives in, `noRefs`). -/
 theorem discard_restores (db : DB) (a : StageArgs) (h : NoPending db) :
     let db' := (step (step db (.stage a)).1 .discard).1
-    { db' with events := db.events } = db ∧ ∃ es, db'.events = db.events ++ es := by
+    { db' with events := db.events, noRefs := db.noRefs } = db ∧ ∃ es, db'.events = db.events ++ es := by
   obtain ⟨h1, h2, h3, h4⟩ := h
   simp only [step]
   rw [storePendingBatch_eq]
@@ -135,7 +187,8 @@ theorem discard_any (db : DB) :
 /-- **Completion applies exactly the staged version, in one step.**  With a staged batch `st`:
 every account/order reads as its staged record if it was staged and as before otherwise; no account or order
 appears or disappears beyond the staged keys; the staged snapshot is appended to the history and is what
-`GetLocalBatchSnapshot(st.id)` returns; the staging area is empty; the event log is untouched. -/
+`GetLocalBatchSnapshot(st.id)` returns (it is readable: all its orders are in the main bucket now); snapshots
+readable under other ids stay so; the staging area is empty; the event log is untouched. -/
 theorem complete_applies_exactly_staged (db : DB) (hc : Coh db) (st : Staged) (hs : staged db = some st) :
     let db' := (step db .complete).1
     (step db .complete).2 = none ∧
@@ -144,7 +197,7 @@ theorem complete_applies_exactly_staged (db : DB) (hc : Coh db) (st : Staged) (h
     (∀ k, k ∈ keys db'.accounts ↔ k ∈ keys st.accts ∨ k ∈ keys db.accounts) ∧
     (∀ n, n ∈ keys db'.orders ↔ n ∈ keys st.orders ∨ n ∈ keys db.orders) ∧
     db'.snaps = db.snaps ++ [st.snap] ∧ getLocalBatchSnapshot db' st.id = .ok st.snap ∧ st.snap.id = st.id ∧
-    (∀ i, i ≠ st.id → getLocalBatchSnapshot db' i = getLocalBatchSnapshot db i) ∧
+    (∀ i s, i ≠ st.id → getLocalBatchSnapshot db i = .ok s → getLocalBatchSnapshot db' i = .ok s) ∧
     NoPending db' ∧ db'.events = db.events := by
   rcases hc.pend with hn | ⟨st', hs', hp⟩
   · rw [staged_of_noPending hn] at hs; cases hs
@@ -157,18 +210,36 @@ theorem complete_applies_exactly_staged (db : DB) (hc : Coh db) (st : Staged) (h
     refine ⟨trivial, fun k => lookup_over (main := db.accounts) s5 k,
       fun n => lookup_over (main := db.orders) s6 n, fun k => keys_over_mem,
       fun n => keys_over_mem, trivial, ?_, s1, ?_, ⟨rfl, rfl, rfl, rfl⟩, trivial⟩
-    · simp [getLocalBatchSnapshot, lookup_upsert]
-    · intro i hi
-      simp only [getLocalBatchSnapshot, lookup_upsert, hi, if_false]
+    · -- the filed snapshot is readable: all its orders are in the main bucket now
+      have hr : snapReadable { db with orders := over st'.orders db.orders } st'.snap = true := by
+        simp only [snapReadable, List.all_eq_true]
+        intro n hn
+        rw [s3] at hn
+        exact lookup_isSome_iff.2 (keys_over_mem.2 (Or.inl hn))
+      simp only [snapReadable] at hr
+      simp [getLocalBatchSnapshot, lookup_upsert, snapReadable, hr]
+    · intro i s hi hg
+      simp only [getLocalBatchSnapshot, lookup_upsert, hi, if_false] at hg ⊢
       cases hl : lookup i db.index with
-      | none => rfl
+      | none => simp [hl] at hg
       | some seq =>
-        obtain ⟨h1, s, h2, _⟩ := hc.idx i seq hl
+        simp only [hl] at hg ⊢
+        obtain ⟨h1, s', h2, _⟩ := hc.idx i seq hl
         have hlt : seq - 1 < db.snaps.length := by
           rcases Nat.lt_or_ge (seq - 1) db.snaps.length with hlt | hge
           · exact hlt
           · rw [List.getElem?_eq_none hge] at h2; cases h2
-        simp only [List.getElem?_append_left hlt]
+        simp only [List.getElem?_append_left hlt, h2] at hg ⊢
+        by_cases hrd : snapReadable db s' = true
+        · simp only [hrd, if_true] at hg
+          have : snapReadable { db with orders := over st'.orders db.orders } s' = true := by
+            simp only [snapReadable, List.all_eq_true] at hrd ⊢
+            intro n hn
+            have := lookup_isSome_iff.1 (hrd n hn)
+            exact lookup_isSome_iff.2 (keys_over_mem.2 (Or.inr this))
+          simp only [snapReadable] at this
+          simp only [snapReadable, this, if_true]; exact hg
+        · simp [hrd] at hg
 
 /-- **Completion without a staged batch fails** with `ErrNoPendingBatch` and changes nothing. -/
 theorem complete_without_pending_errors (db : DB) (hc : Coh db) (hs : staged db = none) :
@@ -201,22 +272,36 @@ theorem stage_stages_exactly_listed (db : DB) (a : StageArgs) (h : (step db (.st
   obtain ⟨_, _, _, _, _, _, _, _, h9, h10⟩ := stageOut_ok ho
   exact ⟨⟨a.batchId, o.pa, o.po, o.snap⟩, by rw [hd]; rfl, h9, h10⟩
 
-/-- `HandleAccountSpend`'s pending-batch clause completes iff a batch is staged, and is a no-op otherwise -/
+/-- `HandleAccountSpend`'s pending-batch clause: a no-op when nothing is staged; exactly `complete` when a batch
+is staged and loadable; `ErrNoOrder` with nothing changed when one of the staged orders has been deleted from the
+main bucket (`PendingBatchSnapshot` cannot be completed then) -/
 theorem spend_completes_iff_pending (db : DB) (hc : Coh db) :
     (staged db = none → step db .spend = (db, none)) ∧
-    (staged db ≠ none → step db .spend = step db .complete) := by
+    (∀ st, staged db = some st → readable (vis db) st = true → step db .spend = step db .complete) ∧
+    (∀ st, staged db = some st → readable (vis db) st = false → step db .spend = (db, some .noOrder)) := by
+  simp only [step]
+  rw [spendPendingClause_eq]
   rcases hc.pend with hn | ⟨st, hs, hp⟩
-  · refine ⟨fun _ => ?_, fun h => absurd (staged_of_noPending hn) h⟩
-    simp only [step, spendPendingClause, pendingBatchSnapshot, hn.2.2.2]; rfl
-  · refine ⟨fun h => (by rw [staged_of_hasPending hp] at h; cases h), fun _ => ?_⟩
-    simp only [step, spendPendingClause, pendingBatchSnapshot, hp.2.2.2]
+  · rw [hn.2.2.2, staged_of_noPending hn]
+    exact ⟨fun _ => rfl, fun st h => (by cases h), fun st h => (by cases h)⟩
+  · rw [hp.2.2.2, staged_of_hasPending hp]
+    refine ⟨fun h => (by cases h), ?_, ?_⟩
+    · intro st' h hr; injection h with h; subst h
+      have hr' : snapReadable db st.snap = true := hr
+      simp only [hr', if_true]
+    · intro st' h hr; injection h with h; subst h
+      have hr' : snapReadable db st.snap = false := hr
+      simp only [hr', Bool.false_eq_true, if_false]; rfl
 
 /-! ## the event log (audit trail, written at staging time by design) -/
 
-/-- every operation only appends to the event log … -/
-theorem events_append_only (db : DB) (op : Op) : ∃ es, (step db op).1.events = db.events ++ es := by
+/-- every operation – except `DeleteOrder`, which removes the deleted order's own event references with its
+bucket – only appends to the event log … -/
+theorem events_append_only (db : DB) (op : Op) (hop : ∀ n, op ≠ .deleteOrder n) :
+    ∃ es, (step db op).1.events = db.events ++ es := by
   have hid : ∃ es, db.events = db.events ++ es := ⟨[], by simp⟩
   cases op with
+  | deleteOrder n => exact absurd rfl (hop n)
   | addAccount k a => simp only [step, addAccountTx]; cases storeA a <;> exact hid
   | submitOrder n o =>
     simp only [step, submitOrderTx]
@@ -262,14 +347,41 @@ theorem events_append_only (db : DB) (op : Op) : ∃ es, (step db op).1.events =
     simp only [step]; rw [reconnect_db]
     repeat' split
     all_goals exact hid
+  | accountSpend k w tx ht =>
+    have hu : ∀ d : DB, (commit d (updateAccountTx k (closeMods tx ht) d)).1.events = d.events := by
+      intro d
+      simp only [updateAccountTx]
+      cases updateAccountCore d.accounts k (closeMods tx ht) with
+      | error e => rfl
+      | ok a => simp only []; cases storeA a <;> rfl
+    have hs : (commit db (spendPendingClause db)).1.events = db.events := by
+      cases hm : spendPendingClause db with
+      | error e => rfl
+      | ok d => simp [commit, spendPendingClause_events hm]
+    simp only [step, handleAccountSpend]
+    cases lookup k db.accounts with
+    | none => exact hid
+    | some a =>
+      cases w with
+      | unknown => exact hid
+      | expiry => exact ⟨[], by simp [hu db]⟩
+      | multiSig =>
+        simp only []
+        cases hr : commit db (spendPendingClause db) with
+        | mk db1 res =>
+          rw [hr] at hs
+          cases res with
+          | some e => exact ⟨[], by simpa using hs⟩
+          | none => exact ⟨[], by simp only []; rw [hu db1]; simpa using hs⟩
 
 /-- … and over a whole history the log of every earlier moment is a prefix of the log of every later one -/
-theorem events_prefix_histories (db : DB) (ops : List Op) : ∃ es, (run db ops).events = db.events ++ es := by
+theorem events_prefix_histories (db : DB) (ops : List Op) (hops : ∀ n, Op.deleteOrder n ∉ ops) :
+    ∃ es, (run db ops).events = db.events ++ es := by
   induction ops generalizing db with
   | nil => exact ⟨[], by simp [run]⟩
   | cons op ops ih =>
-    obtain ⟨e1, h1⟩ := events_append_only db op
-    obtain ⟨e2, h2⟩ := ih (step db op).1
+    obtain ⟨e1, h1⟩ := events_append_only db op (fun n h => hops n (h ▸ List.mem_cons_self))
+    obtain ⟨e2, h2⟩ := ih (step db op).1 (fun n h => hops n (List.mem_cons_of_mem _ h))
     exact ⟨e1 ++ e2, by simp only [run]; rw [h2, h1, List.append_assoc]⟩
 
 /-- completing, discarding, reopening, the spend clause and the reconnect check write no event at all -/
@@ -410,23 +522,27 @@ theorem C06_reconnect_never_applies (db : DB) (rpc : Rpc) (rm : Bool) :
   repeat' split
   all_goals first | exact ⟨Or.inl rfl, rfl⟩ | exact ⟨Or.inr rfl, rfl⟩
 
-/-- kept ⇔ not finalised ∨ same txid (∨ cleanup impossible); discarded otherwise -/
+/-- kept ⇔ not loadable ∨ not finalised ∨ same txid (∨ cleanup impossible); discarded otherwise -/
 theorem C06_reconnect_keep_iff (db : DB) (hc : Coh db) (st : Staged) (hs : staged db = some st)
     (rpc : Rpc) (rm : Bool) :
     (staged (step db (.reconnect rpc rm)).1 = some st ↔
-      ¬ ∃ t, rpc = .finalized t ∧ st.snap.tx ≠ t ∧ rm = true) ∧
-    (staged (step db (.reconnect rpc rm)).1 = none ↔ ∃ t, rpc = .finalized t ∧ st.snap.tx ≠ t ∧ rm = true) := by
+      ¬ (readable (vis db) st = true ∧ ∃ t, rpc = .finalized t ∧ st.snap.tx ≠ t ∧ rm = true)) ∧
+    (staged (step db (.reconnect rpc rm)).1 = none ↔
+      (readable (vis db) st = true ∧ ∃ t, rpc = .finalized t ∧ st.snap.tx ≠ t ∧ rm = true)) := by
   have h1 := (step_refines db hc (.reconnect rpc rm)).1
   have h2 := congrArg Spec.staged h1
   simp only [abs, Spec.step, hs] at h2
   rw [h2]
-  cases rpc with
-  | rpcErr b => simp [discards]
-  | malformed => simp [discards]
-  | finalized t =>
-    by_cases ht : st.snap.tx = t
-    · simp [discards, ht]
-    · cases rm <;> simp [discards, ht]
+  cases hr : readable (vis db) st with
+  | false => simp
+  | true =>
+    cases rpc with
+    | rpcErr b => simp [discards]
+    | malformed => simp [discards]
+    | finalized t =>
+      by_cases ht : st.snap.tx = t
+      · simp [discards, ht]
+      · cases rm <;> simp [discards, ht]
 
 /-! ## non-vacuity -/
 
@@ -439,7 +555,7 @@ def exAcct : Acct := { value := 1000, expiry := 144, state := 3, bkey := 0, opTx
                        tx := 2, version := 0 }
 
 def exPre : List Op :=
-  [.addAccount 1 exAcct, .submitOrder 2 ⟨0, 10, 10, 1⟩, .submitOrder 3 ⟨0, 5, 5, 1⟩]
+  [.addAccount 1 exAcct, .submitOrder 2 { state := 0, unfilled := 10, units := 10, minMatch := 2, isBid := true, tier := 2, extras := 5 }, .submitOrder 3 { state := 0, unfilled := 5, units := 5, minMatch := 1 }]
 
 def exDb : DB := run DB.init exPre
 
@@ -448,15 +564,27 @@ example : NoPending exDb := ⟨by decide, by decide, by decide, by decide⟩
 example : staged (step exDb (.stage exStage)).1 ≠ none := by decide
 example : Coh (step exDb (.stage exStage)).1 :=
   (step_refines exDb (C06_histories exPre).2 (.stage exStage)).2
-/-- completion really changes the visible state in the example (account 1, order 2) and leaves order 3 -/
+/-- completion really changes the visible state in the example (account 1, order 2 – a bid with non-default
+minimum match size, node tier and TLV extras, all preserved) and leaves order 3 -/
 example : let d := (step (step exDb (.stage exStage)).1 .complete).1
-    lookup 2 d.orders = some ⟨2, 4, 10, 1⟩ ∧ lookup 3 d.orders = some ⟨0, 5, 5, 1⟩ ∧
-    (lookup 1 d.accounts).map (·.state) = some 8 ∧ lookup 2 exDb.orders = some ⟨0, 10, 10, 1⟩ ∧
+    lookup 2 d.orders = some { state := 2, unfilled := 4, units := 10, minMatch := 2, isBid := true, tier := 2, extras := 5 } ∧ lookup 3 d.orders = some { state := 0, unfilled := 5, units := 5, minMatch := 1 } ∧
+    (lookup 1 d.accounts).map (·.state) = some 8 ∧ lookup 2 exDb.orders = some { state := 0, unfilled := 10, units := 10, minMatch := 2, isBid := true, tier := 2, extras := 5 } ∧
     d.snaps.length = 1 := by decide
 /-- a failing element at the second position: error and identity -/
 example : (step exDb (.stage { exStage with orders := [2, 9], orderMods := [[], []] })).2 = some .noOrder := by
   decide
 example : (step exDb .complete).2 = some .noPending := by decide
+/-- `DeleteOrder` of a staged order: the staged batch is untouched, `PendingBatchSnapshot` and the spend clause
+fail with `ErrNoOrder`, and completion re-creates the order from its staged version (without event refs) -/
+example : let d := (step (step exDb (.stage exStage)).1 (.deleteOrder 2)).1
+    lookup 2 d.orders = none ∧ staged d = staged (step exDb (.stage exStage)).1 ∧
+    (match pendingBatchSnapshot d with | .error e => some e | .ok _ => none) = some .noOrder ∧
+    (step d .spend).2 = some .noOrder ∧
+    lookup 2 (step d .complete).1.orders =
+      some { state := 2, unfilled := 4, units := 10, minMatch := 2, isBid := true, tier := 2, extras := 5 } ∧
+    (match getOrderEvents (step d .complete).1 2 with | .error e => some e | .ok _ => none) = some .other := by
+  decide
+
 /-- hypotheses of `C06_complete_applies_last_staged` are satisfiable with a non-empty `keep` -/
 example : (step (run DB.init exPre) (.stage exStage)).2 = none ∧
     ∀ d, Coh d → ∀ op ∈ [Op.reopen], (step d op).1 = d ∨ op = .reopen := by
